@@ -180,8 +180,11 @@ Definition c13_pace_mismatches (cs : list c13_pace_case) := indices_where (fun c
 Inductive sys_case :=
 (* the broker answers k pings of a connection, then stays silent (still accepting writes);
    cc = Some m: the caller cancels the context it passed to Connect once m pings were seen
-   (0: right after Connect returned) *)
-| SysSilent (I T : N) (k : nat) (cc : option nat)
+   (0: right after Connect returned);
+   hung: after that PINGREQ the peer does not take bytes either (writes block until the
+   transport is closed locally); others: packets other than PINGREQ attempted on that connection
+   while it was open *)
+| SysSilent (I T : N) (k : nat) (cc : option nat) (hung : bool) (others : nat)
     (pings : nat)            (* PINGREQs seen on that connection *)
     (closed redialed connected : bool)  (* client closed that transport / dialled again / sent a fresh CONNECT *)
     (err : impl_res)         (* Err() of that connection's BaseClient *)
@@ -217,8 +220,8 @@ Definition err_expect (e : option ka_err) : impl_res :=
 (* property, directly on the observation *)
 Definition sys_spec_ok (c : sys_case) : bool :=
   match c with
-  | SysSilent iv tv k cc pings closed redialed connected err gap =>
-      closed && redialed && connected && impl_res_eqb err (IErr true false false None) && (tv <=? gap)
+  | SysSilent iv tv k cc hung others pings closed redialed connected err gap =>
+      Nat.eqb others 0 && closed && redialed && connected && impl_res_eqb err (IErr true false false None) && (tv <=? gap)
       && Nat.leb (S k) pings
   | SysHealthy iv tv pings elapsed dials closes err err_after =>
       Nat.eqb dials 1 && Nat.eqb closes 0 && impl_res_eqb err INil && impl_res_eqb err_after INil
@@ -248,12 +251,17 @@ Definition sys_spec_ok (c : sys_case) : bool :=
 (* model: the connection's keep-alive run + the goroutine's reaction + the loop's reaction *)
 Definition sys_model_ok (c : sys_case) : bool :=
   match c with
-  | SysSilent iv tv k cc pings closed redialed connected err gap =>
+  | SysSilent iv tv k cc hung others pings closed redialed connected err gap =>
       match rc_conn_keepalive iv tv (fun j => match cc with Some m => if Nat.leb m j then Some Canceled else None | None => None end) (zeros k ++ [Never]) with
       | None => false
       | Some o =>
           let st := ka_react 1 o false false st_fresh in
           Nat.eqb pings (KeepAlive.pings o) && impl_res_eqb err (err_expect (cs_err (st 1%nat)))
+          && Nat.eqb others (length (filter op_is_write (react_ops o false false)))
+          && (match run_ops (negb hung) 1 (react_ops o false false) st_fresh with
+              | Some st2 => Bool.eqb closed (cs_closed (st2 1%nat))
+              | None => negb closed
+              end)
           && Bool.eqb closed (cs_closed (st 1%nat))
           && Bool.eqb redialed (match loop_react 1 st with LRedial => true | _ => false end)
       end
